@@ -1,14 +1,14 @@
 SPECIFICATION Spec
 CONSTANTS MinN = 4  MaxN = 4  NameIdx = {1, 2, 3, 5}  MaxKids = 3  MaxEdges = 3  MaxIso = 0  MaxExtraRoots = 0
-          RootPerm = FALSE  Topo = TRUE  Gen = FALSE
+          RootPerm = FALSE  Topo = TRUE  SkipTaken = TRUE  Gen = FALSE
 VIEW view
 INVARIANT TypeOK
-INVARIANT ChildsComplete
-INVARIANT PrefixNonEmpty
-CHECK_DEADLOCK FALSE
 INVARIANT Acyclic
 INVARIANT AcyclicFinal
 INVARIANT BuildOrderExists
 INVARIANT UniqueNames
 INVARIANT EveryPackageInExactlyOneJob
 INVARIANT JobDependsOnDepsJobs
+INVARIANT ChildsComplete
+INVARIANT PrefixNonEmpty
+CHECK_DEADLOCK FALSE
